@@ -111,6 +111,24 @@ func (c *Ctx) Note(s string) {
 	}
 }
 
+// Flush writes the worker's results now (used right before a worker terminates itself).
+func (c *Ctx) Flush() {
+	for h := range c.hashes {
+		c.res.Hashes = append(c.res.Hashes, h)
+	}
+	for h := range c.outcomes {
+		c.res.Outcomes = append(c.res.Outcomes, h)
+	}
+	out := os.Getenv("VERIF_WORKER_OUT")
+	f, err := os.Create(out + ".tmp")
+	if err != nil {
+		return
+	}
+	json.NewEncoder(f).Encode(&c.res)
+	f.Close()
+	os.Rename(out+".tmp", out)
+}
+
 // Expired reports whether the wall budget of this run is used up.
 func (c *Ctx) Expired() bool { return time.Now().After(c.Deadline) }
 
